@@ -2203,9 +2203,9 @@ at_end_of_stream :-
 set_stream_position(S_or_a, Position) :-
     (  var(Position) ->
        throw(error(instantiation_error, set_stream_position/2))
-    ;  Position = position_and_lines_read(P, _),
+    ;  Position = position_and_lines_read(P, L),
        is_stream_position(Position) ->
-       '$set_stream_position'(S_or_a, P)
+       '$set_stream_position'(S_or_a, P, L)
     ;  throw(error(domain_error(stream_position, Position), set_stream_position/2))
     ).
 
